@@ -1,31 +1,48 @@
 ---------------------------- MODULE GeneratorImpl ----------------------------
 (* Implementation-shaped transcription of rten-generate/src/generator.rs      *)
-(* (generate_impl, generate_next_token, with_prompt/append_prompt/            *)
+(* (generate_impl, generate_next_token, with_prompt / append_prompt /         *)
 (* clear_prompt) over the variables of the Generator contract:                *)
-(*   pending = self.input_ids, pos = self.input_offset,                       *)
-(*   prev = self.prev_tokens, ver = identity of the tensor in self.kv_cache.  *)
+(*   pending = self.input_ids (rec flags of the leading entries =             *)
+(*             self.recorded_input_ids), pos = self.input_offset,             *)
+(*   prev = self.prev_tokens, ver = identity of the tensors in self.kv_cache. *)
 (* TLC checks the contract's invariants on it.  A counterexample found here   *)
 (* is only a *candidate*; it counts once the real code reproduces it in the   *)
 (* replayed trace (Trace_Generator).                                          *)
+(*                                                                            *)
+(* OffsetRule selects how input_offset advances after a run with a KV cache:  *)
+(*   "add_fed"  : input_offset += input_ids.len()      (the code)             *)
+(*   "prev_len" : input_offset  = prev_tokens.len()    (a tempting rewrite;   *)
+(*                wrong once a sampled token was dropped before being fed)    *)
 EXTENDS Generator
 
-\* generate_impl(generate_logits): the submission uses
+CONSTANT OffsetRule
+
+\* self.recorded_input_ids: number of leading input_ids already in prev_tokens
+RecordedCount(es) == Cardinality({i \in DOMAIN es : es[i].rec})
+\* the implementation keeps a count, which is adequate only if the recorded
+\* entries are a prefix of input_ids
+RecordedIsPrefix == \A i \in DOMAIN pending : pending[i].rec => \A j \in 1..i : pending[j].rec
+
+\* generate_impl(generate_logits):
 \*   input_positions = input_offset .. input_offset + input_ids.len()
-\* (input_offset only advances when there is a KV cache), the cache tensors are
-\* taken out of self.kv_cache and replaced by the model's outputs, and
-\*   if self.prev_tokens.is_empty() { self.prev_tokens.extend(self.input_ids) }
-\*   if !self.kv_cache.is_empty() { input_offset += len; input_ids.clear() }
+\*   cache tensors are taken out of self.kv_cache, replaced by the model's outputs
+\*   prev_tokens.extend(&input_ids[recorded_input_ids..]); recorded_input_ids = input_ids.len()
+\*   if !kv_cache.is_empty() { input_offset <rule>; input_ids.clear(); recorded_input_ids = 0 }
+\* generate_next_token: prev_tokens.push(t); input_ids.push(t); recorded_input_ids += 1
 ImplRun(logits, s) ==
-  /\ runs' = Append(runs, [sub |-> [i \in 1..Len(pending) |->
+  LET fed == Len(pending)
+      prevAfterImpl == prev \o TokOf(SubSeq(pending, RecordedCount(pending) + 1, fed))
+  IN
+  /\ runs' = Append(runs, [sub |-> [i \in 1..fed |->
                                       [tok |-> pending[i].tok, uid |-> pending[i].uid, pos |-> pos + i - 1]],
                            cacheIn |-> ver,
                            out |-> IF logits THEN <<[tok |-> s, uid |-> nuid]>> ELSE <<>>])
   /\ ver' = ver + 1
-  /\ prev' = (IF prev = <<>> THEN TokOf(pending) ELSE prev) \o (IF logits THEN <<s>> ELSE <<>>)
-  \* the rec flag is not part of the implementation; it is kept as the contract
-  \* defines it so that the shared invariants can be evaluated
+  /\ prev' = prevAfterImpl \o (IF logits THEN <<s>> ELSE <<>>)
   /\ pending' = PendingAfter(pending, kv, logits, s, nuid)
-  /\ pos' = IF kv THEN pos + Len(pending) ELSE pos
+  /\ pos' = IF ~kv THEN pos
+            ELSE IF OffsetRule = "add_fed" THEN pos + fed
+            ELSE Len(prevAfterImpl)
   /\ nuid' = nuid + (IF logits THEN 1 ELSE 0)
 
 ImplProcessPrompt == /\ Live /\ ImplRun(FALSE, 0) /\ Log("process", <<>>)
@@ -33,8 +50,12 @@ ImplProcessPrompt == /\ Live /\ ImplRun(FALSE, 0) /\ Log("process", <<>>)
 ImplNext(s) == /\ Live /\ pending # <<>> /\ ImplRun(TRUE, s) /\ Log("next", <<>>)
                /\ UNCHANGED <<kv, cleared, done>>
 
-ImplStep == \/ \E len \in 0..MaxPrompt : WithPrompt(FreshToks(nuid, len))
-            \/ \E len \in 0..MaxPrompt : AppendPrompt(FreshToks(nuid, len))
+\* with_prompt: input_ids = prompt; recorded_input_ids = 0
+\* append_prompt: input_ids.extend(prompt)
+\* clear_prompt: input_ids.clear(); recorded_input_ids = 0
+\* (the contract actions are literally these assignments)
+ImplStep == \/ \E len \in PromptLens : WithPrompt(FreshToks(nuid, len))
+            \/ \E len \in PromptLens : AppendPrompt(FreshToks(nuid, len))
             \/ ClearPrompt \/ ImplProcessPrompt \/ NextEmpty
             \/ \E s \in SampledToks : ImplNext(s)
 =============================================================================
